@@ -141,9 +141,11 @@ def run(ctx):
                "addSection", MT + ".BaseMatcher",
                "name reuse refused before registration and slot search")
 
+    inv = _children_invariant(ctx)
     crosscheck(ctx, "C01.R4", INF + ".SectionType.getsectioninfo", REF,
                "getsectioninfo", INF + ".SectionType",
-               "by key / by type / by implemented abstract type; else raise")
+               "by key / by type / by implemented abstract type; else raise",
+               live_kw={"rewrite": inv}, ref_kw={"rewrite": inv})
 
     crosscheck(ctx, "C01.R5", "ZConfig.loader.ConfigLoader.startSection",
                "ref_loader.py", "startSection", "ZConfig.loader.ConfigLoader",
@@ -249,3 +251,102 @@ def run(ctx):
                       "the datatype call %s is not wrapped: a ValueError of "
                       "the datatype would escape as a bare ValueError"
                       % src(n), loc=m.loc(fi, n))
+
+
+def _children_invariant(ctx):
+    """Data-structure invariant of SectionType._children, *checked* here and
+    then used as a term rewrite by the slot-search comparison: an entry
+    (key, info) with a key has info.name == key.  Entries are appended by
+    _add_child(key, info) only; addkey passes (keyinfo.name, keyinfo);
+    addsection passes (name, sectinfo) and every caller of addsection passes
+    a SectionInfo constructed with that same name as its first argument (no
+    re-binding in between).  With it, `info.name` of a child entry *is* the
+    entry's key, so a test written on one is a test on the other."""
+    run, m, P, F = ctx.run, ctx.model, ctx.program, ctx.flow
+    ST = INF + ".SectionType"
+    ok, why = True, []
+    addchild = m.lookup_method(ST, "_add_child")
+    if addchild is None:
+        return None
+    appends = [n for k in m.mro(ST) if k in m.classes
+               for fn in m.classes[k].methods.values()
+               for n in ast.walk(fn.node)
+               if isinstance(n, ast.Call) and isinstance(
+                   n.func, ast.Attribute) and n.func.attr in (
+                       "append", "insert", "extend")
+               and src(n.func.value).endswith("._children")
+               and fn is not addchild and fn.name not in (
+                   "deriveSectionType",)]
+    if appends:
+        ok = False
+        why.append("_children is also extended outside _add_child: %s"
+                   % [src(a)[:50] for a in appends])
+    for caller, call, c in F.callers(addchild):
+        a = call.args
+        if len(a) != 2:
+            ok = False
+            why.append("%s: %s" % (caller.qualname, src(call)))
+            continue
+        k, i = a
+        if isinstance(k, ast.Attribute) and k.attr == "name" \
+                and src(k.value) == src(i):
+            continue                      # (info.name, info)
+        if isinstance(k, ast.Name) and isinstance(i, ast.Name) \
+                and caller.params[1:3] == [k.id, i.id]:
+            # (name, sectinfo) handed through: look at the callers
+            for c2, call2, _ in F.callers(caller):
+                b = call2.args
+                good = False
+                if len(b) == 2 and isinstance(b[0], ast.Name) \
+                        and isinstance(b[1], ast.Name):
+                    binds = [v for v, how in F._assignments(c2, b[1].id)
+                             if how == "plain"]
+                    nb = [v for v, how in F._assignments(c2, b[0].id)]
+                    def first_is_key(a0):
+                        # SectionInfo(name, ...) or SectionInfo(any_name or
+                        # name, ...): get_name_info returns the wildcard
+                        # marker only together with the key None (its
+                        # decision table is compared in C02.R5), so for an
+                        # entry that has a key the first argument is the key
+                        if isinstance(a0, ast.Name):
+                            return a0.id == b[0].id
+                        return isinstance(a0, ast.BoolOp) and isinstance(
+                            a0.op, ast.Or) and isinstance(
+                                a0.values[-1], ast.Name) \
+                            and a0.values[-1].id == b[0].id
+                    good = len(binds) == 1 and isinstance(
+                        binds[0], ast.Call) and binds[0].args \
+                        and first_is_key(binds[0].args[0]) \
+                        and (m.resolve(c2.module, binds[0].func) or ""
+                             ).endswith("Info")
+                    # the name is bound before the info is built and not
+                    # after it
+                    if good:
+                        line_info = binds[0].lineno
+                        good = all(getattr(v, "lineno", 0) <= line_info
+                                   for v in nb)
+                if not good:
+                    ok = False
+                    why.append("%s: %s" % (c2.qualname, src(call2)))
+            continue
+        ok = False
+        why.append("%s: %s" % (caller.qualname, src(call)))
+    run.check(ok, "C01.R4", ST + "._children", "entry (key, info): "
+              "info.name == key",
+              "every entry is appended by _add_child with the info's own "
+              "name as key (addkey: keyinfo.name; addsection: the name the "
+              "SectionInfo was constructed with)",
+              "the invariant 'a child's key is its info's name' is not "
+              "established by %s" % why, nontrivial=True)
+    if not ok:
+        return None
+
+    def rewrite(t):
+        # (<element of self._children>[1]).name  ->  <element>[0]
+        if t[0] == "attr" and t[2] == "name" and t[1][0] == "index" \
+                and t[1][2] == ("const", 1) and t[1][1][0] in (
+                    "elem", "elem2") and t[1][1][1] == (
+                        "attr", ("self",), "_children"):
+            return ("index", t[1][1], ("const", 0))
+        return t
+    return rewrite
